@@ -149,13 +149,30 @@ def run(ctx):
                 checked += 1
                 a, n, k = hit[0]
                 if calls_any(cg, f, INVALIDATORS):
-                    r3.ok(f"{c.name}.{f.name} stores self.{a} and clears the memoised values")
+                    # ... on every path that completes: a value-dependent skip of the invalidation keeps the old values
+                    from ..flow import must_pass
+                    from ..shared import _strip_diagnostics
+
+                    def inval_stmt(st, f=f):
+                        if isinstance(st, (ast.If, ast.For, ast.While, ast.With, ast.Try)):
+                            return False
+                        probe = FuncInfo(f.qualname + ".<stmt>", f.module, f.cls, ast.FunctionDef(name="_s", args=f.node.args, body=[st], decorator_list=[], returns=None, type_comment=None), [])
+                        return calls_any(cg, probe, INVALIDATORS)
+
+                    if must_pass(_strip_diagnostics(f.node.body), inval_stmt):
+                        r3.ok(f"{c.name}.{f.name} stores self.{a} and clears the memoised values on every path")
+                    else:
+                        r3.fail(f.qualname, f"conditional-invalidate:{a}", f.file, n.lineno, f"{c.name}.{f.name}", f"stores self.{a} but the memoised values are cleared on some paths only (a guard decides whether the change is worth an invalidation): derived state of the old {a.split('__')[-1]} survives")
                 else:
                     lazily = all(isinstance(m, (ast.Assign,)) and any(isinstance(p, ast.If) and m in ast.walk(p) and a.split("__")[-1] in norm_text(p.test) for p in ast.walk(f.node)) for _, m, _ in hit)
                     if lazily:
                         r3.ok(f"{c.name}.{f.name} lazily initialises self.{a}")
                     else:
                         r3.fail(f.qualname, f"no-invalidate:{a}", f.file, n.lineno, f"{c.name}.{f.name}", f"stores self.{a}, which the memoised methods of {ci.name} read ({', '.join(sorted(x.name for x in fs)[:3])}...), without clearing the memoised values: the next read returns results of the old {a.split('__')[-1]}")
+    from ..shared import setter_discipline_rule, approx_guard_rule
+
+    setter_discipline_rule(ctx, "R14.7")
+    approx_guard_rule(ctx, "R14.8", ["EasyFEA.FEM._group_elem", "EasyFEA.FEM._mesh", "EasyFEA.Simulations._simu", "EasyFEA.Utilities._params", "EasyFEA.Utilities._cache", "EasyFEA.Utilities._observers"])
     # ---- R14.3b assembled matrices: mutators of what Construct_local_matrix_system reads reach Need_Update
     r3b = ctx.rule("R14.3b", "every method that stores to a simulation attribute read by the assembly reaches Need_Update (directly, through a _Parameter descriptor, a property setter or _Notify)", min_instances=5)
     simu = repo.cls(SIMU)
